@@ -29,12 +29,14 @@ func init() {
 				"R13.2 guards dominate draws: every draw site in a Generate is dominated by the complement of Length<1 and of the emptiness test of the collection it indexes; the character retry loop is dominated by the acceptable-failure-rate test",
 				"R13.3 non-zero bound at every draw site reachable from Generate (LIN / Size()!=0 guard on the same copy / constant)",
 				"R13.4+R13.6 panic-freedom of the call tree of both Generate methods (context-sensitive nilness + LIN); named exemptions only: CSPRNG-failure panic, bounded-draw n==0 panic (discharged at call sites by R13.3), stringFromSet's r.(string) (set provenance checked)",
+				"R13.7 SuccessProbability() = 2^(Entropy(recipe) - Entropy(recipe with all requirements turned into allowed characters)), clamped: with C07's exact count this is the exact fraction of unconstrained candidates that satisfy the requirements",
+				"R13.8 pre-flight: refused iff successProbability <= 0 or (1 - successProbability)^MaxTrials > MaxFailRate (so a recipe comfortably above the threshold is never refused)",
 				"R13.5 attempt budget: the loop containing the character draws is nested in a counted loop 0<=i<MaxTrials step 1; no draw outside it in CharRecipe.Generate",
 			},
 			Trusted: append([]string{"interface values of golang-set sets computed by the alphabet builder are non-nil (interface-receiver nilness is not analysed)",
 				"foreign functions on the checker's no-panic list do not panic for the arguments the module passes", "int<->uint32 conversions of lengths do not wrap (alphabets and Length below 2^31)"}, commonTrusted...),
-			NotDecided: []string{"that SuccessProbability() equals the exact fraction (numeric; C07) — the NaN estimate and spurious refusal for overlapping required sets is NOT reported by this check",
-				"that ordinary recipes are never refused", "panics inside golang-set or the standard library"},
+			NotDecided: []string{"the numeric value of SuccessProbability() for any particular recipe (its exactness rests on C07's counting schema plus R13.7's shape)",
+				"float rounding in the pre-flight comparison", "panics inside golang-set or the standard library"},
 		},
 		Run: runC13,
 	})
@@ -124,6 +126,205 @@ func runC13(p *core.Program, r *core.Report) {
 	} else {
 		r.Pass("R13.6", "-", "only string elements are added to character sets", "", charSetWhy)
 	}
+	checkSuccessProbability(p, r)
+}
+
+// checkSuccessProbability: R13.7 (shape of SuccessProbability) and R13.8 (the pre-flight test).
+func checkSuccessProbability(p *core.Program, r *core.Report) {
+	sp := p.Method("CharRecipe", "SuccessProbability")
+	ent := p.Method("CharRecipe", "Entropy")
+	if sp == nil || ent == nil {
+		r.Unrecognised("R13.7", "CharRecipe.SuccessProbability", "method", "", "not found")
+		return
+	}
+	name := core.FuncName(sp)
+	pos := p.Pos(sp.Pos())
+	var recv, cp *ssa.Alloc
+	for _, in := range sp.Blocks[0].Instrs {
+		if al, ok := in.(*ssa.Alloc); ok {
+			if paramCopiedInto(al) == 0 {
+				recv = al
+			} else if core.NamedOf(al.Type()) == core.ModulePath+".CharRecipe" {
+				cp = al
+			}
+		}
+	}
+	if recv == nil || cp == nil {
+		r.Unrecognised("R13.7", name, "works on an explicit modified copy of the recipe", pos, "receiver copy / relaxed copy not found")
+		return
+	}
+	// cp is a whole copy of the receiver with exactly four fields overwritten
+	wholeOK := false
+	for _, ref := range core.Referrers(cp) {
+		if st, ok := ref.(*ssa.Store); ok && st.Addr == ssa.Value(cp) {
+			if ld, ok := st.Val.(*ssa.UnOp); ok && ld.X == ssa.Value(recv) {
+				wholeOK = true
+			}
+		}
+	}
+	r.Check(wholeOK, "R13.7", name, "the relaxed recipe starts as a copy of the receiver", pos, "")
+	lit := core.StructLiteral(cp)
+	fromRecv := func(v ssa.Value, field string) bool {
+		ref, ok := core.LoadPath(v)
+		return ok && ref.Root == ssa.Value(recv) && ref.Path == "."+field
+	}
+	// AllowChars = AllowChars + Join(RequireSets, "")
+	okAC := false
+	if bo, ok := lit["AllowChars"].(*ssa.BinOp); ok && bo.Op == token.ADD && fromRecv(bo.X, "AllowChars") {
+		if j, ok := bo.Y.(*ssa.Call); ok && core.CallName(j) == "strings.Join" && fromRecv(j.Call.Args[0], "RequireSets") {
+			if sep, isS := core.ConstString(j.Call.Args[1]); isS && sep == "" {
+				okAC = true
+			}
+		}
+	}
+	r.Check(okAC, "R13.7", name, "relaxed AllowChars = AllowChars + all custom required characters", pos, core.Describe(lit["AllowChars"]))
+	okRS := false
+	if sl, ok := lit["RequireSets"].(*ssa.Slice); ok {
+		if al, ok := sl.X.(*ssa.Alloc); ok {
+			if at, ok := al.Type().Underlying().(*types.Pointer).Elem().Underlying().(*types.Array); ok && at.Len() == 0 {
+				okRS = true
+			}
+		}
+	}
+	if core.IsNilConst(lit["RequireSets"]) && lit["RequireSets"] != nil {
+		okRS = true
+	}
+	r.Check(okRS, "R13.7", name, "relaxed RequireSets is a fresh empty list", pos, core.Describe(lit["RequireSets"]))
+	okAl := false
+	if bo, ok := lit["Allow"].(*ssa.BinOp); ok && bo.Op == token.OR {
+		okAl = (fromRecv(bo.X, "Allow") && fromRecv(bo.Y, "Require")) || (fromRecv(bo.Y, "Allow") && fromRecv(bo.X, "Require"))
+	}
+	r.Check(okAl, "R13.7", name, "relaxed Allow = Allow | Require", pos, core.Describe(lit["Allow"]))
+	z, isC := core.ConstUint(lit["Require"])
+	r.Check(lit["Require"] != nil && isC && z == 0, "R13.7", name, "relaxed Require = None", pos, core.Describe(lit["Require"]))
+	r.Check(len(lit) == 4, "R13.7", name, "no other field of the relaxed recipe is changed (Length, Exclude, ExcludeChars kept)", pos, fmt.Sprintf("%d fields overwritten", len(lit)))
+	// result = clamp(exp2(clamp(Entropy(r) - Entropy(relaxed))))
+	rets := core.Returns(sp)
+	okRes, why := false, ""
+	if len(rets) == 1 {
+		v := rets[0].Results[0]
+		// strip the upper clamp phi(p, 1)
+		unclamp := func(v ssa.Value, c float64) ssa.Value {
+			if phi, ok := v.(*ssa.Phi); ok && len(phi.Edges) == 2 {
+				for i, e := range phi.Edges {
+					if k, ok := e.(*ssa.Const); ok && k.Value != nil && k.Float64() == c {
+						return phi.Edges[1-i]
+					}
+				}
+			}
+			return v
+		}
+		v = unclamp(v, 1)
+		if cv, ok := v.(*ssa.Convert); ok {
+			v = cv.X
+		}
+		if ex, ok := v.(*ssa.Call); ok && core.CallName(ex) == "math.Exp2" {
+			d := ex.Call.Args[0]
+			if cv, ok := d.(*ssa.Convert); ok {
+				d = cv.X
+			}
+			d = unclamp(d, 0)
+			if sub, ok := d.(*ssa.BinOp); ok && sub.Op == token.SUB {
+				a, okA := sub.X.(*ssa.Call)
+				b, okB := sub.Y.(*ssa.Call)
+				if okA && okB && core.StaticCallee(a) == ent && core.StaticCallee(b) == ent {
+					la, _ := a.Call.Args[0].(*ssa.UnOp)
+					lb, _ := b.Call.Args[0].(*ssa.UnOp)
+					if la != nil && lb != nil && la.X == ssa.Value(recv) && lb.X == ssa.Value(cp) {
+						// the relaxed copy is complete before its entropy is taken
+						okRes = true
+						for _, ref := range core.Referrers(cp) {
+							if fa, ok := ref.(*ssa.FieldAddr); ok {
+								for _, rr := range core.Referrers(fa) {
+									if st, ok := rr.(*ssa.Store); ok && !core.InstrDominates(st, b) {
+										okRes = false
+										why = "a field of the relaxed copy is written after its entropy is taken"
+									}
+								}
+							}
+						}
+					} else {
+						why = "the two entropies are not those of the recipe and of its relaxed copy, in that order"
+					}
+				} else {
+					why = "the exponent is not a difference of two Entropy() calls"
+				}
+			} else {
+				why = "the exponent is not Entropy(recipe) - Entropy(relaxed)"
+			}
+		} else {
+			why = "result is not 2^(difference of entropies): " + core.Describe(v)
+		}
+	}
+	r.Check(okRes, "R13.7", name, "SuccessProbability = 2^(Entropy(recipe) - Entropy(recipe with requirements relaxed to allowed)), clamped to [.,1]", pos,
+		why+" — with C07 (exact count) this is (number of satisfying strings)/(alphabet size)^Length, the exact single-attempt success chance")
+
+	// R13.8 the pre-flight
+	var pre *ssa.Function
+	for _, c := range core.Calls(p.Method("CharRecipe", "Generate")) {
+		if f := core.StaticCallee(c); f != nil && p.InLib(f) && f.Signature.Results().Len() == 2 {
+			if b, ok := f.Signature.Results().At(0).Type().Underlying().(*types.Basic); ok && b.Kind() == types.Bool {
+				pre = f
+			}
+		}
+	}
+	if pre == nil {
+		r.Unrecognised("R13.8", "-", "failure-rate pre-flight", "", "no (bool, float) helper called by CharRecipe.Generate")
+		return
+	}
+	pname := core.FuncName(pre)
+	nOK := 0
+	for _, ret := range core.Returns(pre) {
+		rpos := p.InstrPos(ret)
+		v := ret.Results[0]
+		if c, ok := v.(*ssa.Const); ok {
+			// constant false only under sp <= 0
+			isFalse := c.Value != nil && c.Value.String() == "false"
+			okG := false
+			for _, g := range core.Guards(ret.Block()) {
+				if rel, ok := core.AsRel(g); ok && (rel.Op == token.LEQ || rel.Op == token.LSS) {
+					if cc, ok := rel.X.(*ssa.Call); ok && core.StaticCallee(cc) == sp && isZeroConst(rel.Y) {
+						okG = true
+					}
+				}
+			}
+			r.Check(isFalse && okG, "R13.8", pname, "refused outright only when the success probability is <= 0", rpos, "")
+			continue
+		}
+		// failP <= MaxFailRate with failP = Pow(1 - sp, MaxTrials)
+		bo, ok := v.(*ssa.BinOp)
+		okCmp := ok && bo.Op == token.LEQ
+		if okCmp {
+			okCmp = false
+			if ld, ok := bo.Y.(*ssa.UnOp); ok {
+				if g, ok := ld.X.(*ssa.Global); ok && g.Name() == "MaxFailRate" {
+					if pw, ok := bo.X.(*ssa.Call); ok && core.CallName(pw) == "math.Pow" {
+						base, okB := pw.Call.Args[0].(*ssa.BinOp)
+						expo := core.Strip(pw.Call.Args[1])
+						okE := false
+						if l2, ok := expo.(*ssa.UnOp); ok {
+							if g2, ok := l2.X.(*ssa.Global); ok && g2.Name() == "MaxTrials" {
+								okE = true
+							}
+						}
+						if okB && base.Op == token.SUB && okE {
+							if one, ok := base.X.(*ssa.Const); ok && one.Value != nil && one.Float64() == 1 {
+								if cc, ok := core.Strip(base.Y).(*ssa.Call); ok && core.StaticCallee(cc) == sp {
+									okCmp = true
+								}
+							}
+						}
+					}
+				}
+			}
+		}
+		if okCmp {
+			nOK++
+		}
+		r.Check(okCmp, "R13.8", pname, "accepted iff (1 - successProbability)^MaxTrials <= MaxFailRate", rpos,
+			"any other test refuses recipes whose chance of exhausting the attempts is within the configured limit (or admits ones beyond it)")
+	}
+	r.Check(nOK == 1, "R13.8", pname, "exactly one acceptance test", p.Pos(pre.Pos()), fmt.Sprint(nOK))
 }
 
 // panicDependsOnRead: every edge into the panic's block is taken on a condition
